@@ -196,15 +196,29 @@ Definition check_1003 (fs : list field) : verdict :=
     let recl := if mode =? 2 then recA else recB in
     let stale := known_reuse sc root bA bB recA recB mode err outb in
     let fresh := (recl =? 1) && load_matches (coded_load_marshal cur_fixes sc root bl) err outb in
+    (* mode 2 (A, B, A): an error may stem from the intermediate Load / Marshal of B on its own (e.g. bool keys) *)
+    let mid := if (mode =? 2) && (err =? 1)
+               then match decode_top sc root bB with
+                    | Some mB => if load_matches (coded_load_marshal cur_fixes sc root bB) err outb
+                                 then known_load sc root mB bB recB err outb else None
+                    | None => None
+                    end
+               else None in
     match judge_load sc root bl recl err outb acc with
     | VOk | VDrift _ => if reuse_agrees sc root bA bB recA recB mode err outb then VOk else VDrift 3
     | VSkip => VSkip
     | VKnown id =>                       (* a fresh tree deviates in the same way (e.g. bool keys): not a matter of re-use *)
-      match stale with
-      | Some sid => if fresh then VKnown id else VKnown sid
-      | None => VKnown id
+      match mid, stale with
+      | Some mid_id, _ => VKnown mid_id
+      | None, Some sid => if fresh then VKnown id else VKnown sid
+      | None, None => VKnown id
       end
-    | VBad _ d => match stale with Some sid => VKnown sid | None => VBad 300 d end
+    | VBad _ d =>
+      match mid, stale with
+      | Some mid_id, _ => VKnown mid_id
+      | None, Some sid => VKnown sid
+      | None, None => VBad 300 d
+      end
     end
   | _ => VBad 99 []
   end.
